@@ -280,6 +280,12 @@ def run(ctx) -> None:
     ctx.rule("C07.R10-links-are-folders-on-reload", "deployment places the manifest's folders by copy or by symbolic link; the discovery of the "
              "top-level folders of an instance directory (Manifest.fromDirectory) must therefore follow links when it asks whether an entry "
              "is a directory")
+    ctx.rule("C07.R11-loader-reads-the-stored-file", "what the loader returns for a path is parsed from that file on every load: no function of the "
+             "load path writes into a module-level memo (a parse cache keyed by path and modification time answers with the previous "
+             "description when the file was stored again within one tick of a coarse file-system clock)")
+    ctx.rule("C07.R12-defaults-test-the-key-they-set", "in the default-injection code of flowir.py a statement of the shape "
+             "'if <key> not in D: D[<key2>] = <default>' uses one key: testing another key than the one that is set resets a stored value on "
+             "every load")
     ctx.rule("C07.R9-store-always-writes", "store_unreplicated_flowir_to_disk writes and publishes the description on every path that returns "
              "normally (no silent early return)")
     ctx.rule("C07.R8-stored-is-instance-output", "what is dumped to flowir_instance.yaml is the dictionary returned by instance(), passed "
@@ -357,6 +363,34 @@ def run(ctx) -> None:
 
     # ---------------- R7 -------------------------------------------------------------------------------
     check_scope_precedence(ctx, fl, inst, lits[0], consts)
+    n12 = 0
+    for q, f in fl.functions.items():
+        if not q.split(".")[-1].startswith("inject_default"):
+            continue
+        for iff in source.walk_own(f):
+            if not isinstance(iff, ast.If):
+                continue
+            cp = match.compare_parts(iff.test)
+            if not (cp and isinstance(cp[1], ast.NotIn) and isinstance(cp[0], ast.Constant) and isinstance(cp[0].value, str) and len(iff.body) == 1):
+                continue
+            st = iff.body[0]
+            if not (isinstance(st, ast.Assign) and len(st.targets) == 1 and isinstance(st.targets[0], ast.Subscript)
+                    and isinstance(st.targets[0].slice, ast.Constant) and source.src(st.targets[0].value) == source.src(cp[2])):
+                continue
+            n12 += 1
+            ctx.analysed(f)
+            ok = st.targets[0].slice.value == cp[0].value
+            ctx.ob("C07.R12-defaults-test-the-key-they-set", iff, ok,
+                   "the default of %r is set only when %r is absent" % (st.targets[0].slice.value, cp[0].value) if ok else
+                   "%s sets the default of %r whenever %r is absent - another key: a value of %r that was computed by the runtime and stored "
+                   "with the instance is reset to the default every time the description is loaded" % (
+                       q, st.targets[0].slice.value, cp[0].value, st.targets[0].slice.value),
+                   construct="%s: if %r not in ..: ..[%r] = .." % (q, cp[0].value, st.targets[0].slice.value))
+    ctx.floor("C07.R12-defaults-test-the-key-they-set", n12, 3, "'if key not in D: D[key] = default' statements in the default injection of flowir.py")
+    from checks.c15 import check_module_memos
+    check_module_memos(ctx, "C07.R11-loader-reads-the-stored-file",
+                       "an instance that is stored again (e.g. after a DoWhile iteration) and reloaded in the same process comes back without "
+                       "what was added since the memo was filled, and the default re-store then overwrites the file with the stale description")
 
     # ---------------- R8 -------------------------------------------------------------------------------
     check_stored_is_instance_output(ctx, conf)
